@@ -82,7 +82,8 @@ PROFILE = gf.make_profile(
     kinds={"do": 12, "if": 5, "where": 3, "call": 5, "assign_scalar": 6,
            "assign_elem": 6, "assign_section": 4, "select": 2,
            "exitcycle": 1},
-    helpers=(0, 2), nstmts=(2, 5), twin_loops=10, perfect_nest=20)
+    helpers=(0, 2), nstmts=(1, 4), budget=12, max_depth=2, twin_loops=10,
+    perfect_nest=20)        # small bodies: parsing dominates the cost
 
 CATEGORIES = ["routine", "container", "routine", "loop", "body", "directive",
               "routine", "if", "scoped_body", "file", "loop", "body",
